@@ -10,10 +10,11 @@
 //!  * correspondence: pest's Pratt parser vs the Lean `prattParse` on the real pairs;
 //!  * correspondence: the character-level word model (`Ident.termWord`, `Ident.identifier`)
 //!    vs what the real parser makes of a one-word program / of the word at the start of a text;
-//!  * correspondence: the character-level model of the `expression` rule for the operator
-//!    fragment (`ExprPeg.exprItems`) vs the real pest pairs, on printer output of random
-//!    operator trees, on the same with random admissible layout and redundant parentheses,
-//!    and on ill-formed texts (`c10.model.expr-peg`).
+//!  * correspondence: the character-level model of the `expression` rule for the fragment
+//!    operators + calls (spread arguments, trailing comma) + index + field + list literals +
+//!    lambdas + conditionals (`ExprPeg.exprItems`) vs the real pest pairs, on printer output of random trees, on the
+//!    same with random admissible layout and redundant parentheses, on every layout string at
+//!    every position of the postfix forms, and on ill-formed texts (`c10.model.expr-peg`).
 
 use crate::fmtcommon::*;
 use crate::progen::{self, GE, GenCfg, BINOPS};
@@ -46,6 +47,49 @@ enum T {
     Call(Box<T>),
     Idx(Box<T>),
     Dot(Box<T>),
+    /// call with its arguments (spread flag, argument) — expression model tie
+    CallN(Box<T>, Vec<(bool, T)>),
+    /// index with its index expression
+    IdxE(Box<T>, Box<T>),
+    /// field access with its field name
+    DotN(Box<T>, &'static str),
+    /// list literal with its items (spread flag, item)
+    ListN(Vec<(bool, T)>),
+    /// lambda: arguments (kind 0 required / 1 optional / 2 rest, name) and body
+    Lam(Vec<(u8, &'static str)>, Box<T>),
+    /// conditional
+    Cond(Box<T>, Box<T>, Box<T>),
+}
+
+fn lam_arg(a: &(u8, &'static str)) -> String {
+    match a.0 {
+        0 => a.1.to_string(),
+        1 => format!("{}?", a.1),
+        _ => format!("...{}", a.1),
+    }
+}
+
+/// `ends_open` of the printer: the text ends with a lambda body, which extends as far right
+/// as possible
+fn ends_open(t: &T) -> bool {
+    match t {
+        T::Lam(..) | T::Cond(..) => true,
+        T::Bin(_, _, r) => ends_open(r),
+        T::Neg(x) | T::Not(x) => ends_open(x),
+        _ => false,
+    }
+}
+
+/// `lambda_body_needs_parens`: `via` / `into` / `where` on the left spine at the chain level
+fn body_needs_parens(t: &T) -> bool {
+    match t {
+        T::Bin(op, l, _) => matches!(*op, "via" | "into" | "where") || (doc_level(op).0 == 1 && body_needs_parens(l)),
+        _ => false,
+    }
+}
+
+fn args_text(args: &[(bool, T)], f: &dyn Fn(&T) -> String) -> String {
+    args.iter().map(|(sp, a)| format!("{}{}", if *sp { "..." } else { "" }, f(a))).collect::<Vec<_>>().join(", ")
 }
 
 fn full(t: &T) -> String {
@@ -58,17 +102,25 @@ fn full(t: &T) -> String {
         T::Call(x) => format!("({})(k)", full(x)),
         T::Idx(x) => format!("({})[k]", full(x)),
         T::Dot(x) => format!("({}).k", full(x)),
+        T::CallN(x, args) => format!("({})({})", full(x), args_text(args, &full)),
+        T::IdxE(x, i) => format!("({})[{}]", full(x), full(i)),
+        T::DotN(x, n) => format!("({}).{}", full(x), n),
+        T::ListN(items) => format!("[{}]", args_text(items, &full)),
+        T::Lam(args, b) => format!("({}) => ({})", args.iter().map(lam_arg).collect::<Vec<_>>().join(", "), full(b)),
+        T::Cond(c, t, e) => format!("if ({}) then ({}) else ({})", full(c), full(t), full(e)),
     }
 }
 
 /// strength classes of the documented table: binary 1..6, prefix 7, postfix `!` 8, call/index/field 9, leaf 10
 fn strength(t: &T) -> u8 {
     match t {
-        T::Leaf(_) => 10,
+        T::Leaf(_) | T::ListN(_) => 10,
+        // a lambda as an operand of a prefix / postfix operator is always parenthesised here
+        T::Lam(..) | T::Cond(..) => 0,
         T::Bin(op, _, _) => doc_level(op).0,
         T::Neg(_) | T::Not(_) => 7,
         T::Fact(_) => 8,
-        T::Call(_) | T::Idx(_) | T::Dot(_) => 9,
+        T::Call(_) | T::Idx(_) | T::Dot(_) | T::CallN(..) | T::IdxE(..) | T::DotN(..) => 9,
     }
 }
 
@@ -84,7 +136,7 @@ fn minimal(t: &T) -> String {
                     lp < p || (lp == p && right)
                 }
                 _ => false, // prefix and postfix forms bind tighter than any binary operator
-            };
+            } || ends_open(l);
             let rneed = match &**r {
                 T::Bin(ro, _, _) => {
                     let (rp, _) = doc_level(ro);
@@ -101,6 +153,13 @@ fn minimal(t: &T) -> String {
         T::Call(x) => format!("{}(k)", wrap(x, strength(x) < 8)),
         T::Idx(x) => format!("{}[k]", wrap(x, strength(x) < 8)),
         T::Dot(x) => format!("{}.k", wrap(x, strength(x) < 8)),
+        T::CallN(x, args) => format!("{}({})", wrap(x, strength(x) < 8), args_text(args, &minimal)),
+        T::IdxE(x, i) => format!("{}[{}]", wrap(x, strength(x) < 8), minimal(i)),
+        T::DotN(x, n) => format!("{}.{}", wrap(x, strength(x) < 8), n),
+        T::ListN(items) => format!("[{}]", args_text(items, &minimal)),
+        T::Lam(args, b) => format!("({}) => {}", args.iter().map(lam_arg).collect::<Vec<_>>().join(", "), wrap(b, body_needs_parens(b))),
+        // every part of a conditional is an `expression`: no parentheses needed
+        T::Cond(c, t, e) => format!("if {} then {} else {}", minimal(c), minimal(t), minimal(e)),
     }
 }
 
@@ -544,12 +603,12 @@ fn check_word_model(ctx: &Ctx, model: &mut Model, rep: &mut Report, rng: &mut Rn
 
 // ------------------------------------------------------------------ expression model tie
 
-/// what the real parser makes of `text` as ONE expression of the operator fragment
+/// what the real parser makes of `text` as ONE expression of the fragment
 enum RealItems {
     /// no parse, or not exactly one statement that is one `expression` pair spanning the text
     None,
-    /// parsed, but with a rule outside the fragment (call, index, field, string, list, …, a
-    /// number that is not a plain digit run): the model does not claim anything
+    /// parsed, but with a rule outside the fragment (string, list, lambda, …, a number that is
+    /// not a plain digit run): the model does not claim anything
     Outside(&'static str),
     /// the item sequence in wire form
     Items(String),
@@ -579,11 +638,20 @@ fn in_fragment(p: pest::iterators::Pair<Rule>) -> Result<(), &'static str> {
             }
         }
         _ if FRAGMENT_OPS.contains(&name.as_str()) => Ok(()),
-        Rule::call_list => Err("call"),
-        Rule::access => Err("index"),
-        Rule::dot_access => Err("field"),
+        // postfix forms: the payload is made of `expression` / `spread_expression` /
+        // `identifier` pairs
+        // … and list literals: `list_item` pairs with their `eol_comment`, `comment` pairs (the
+        // conversion used here, without `preserve_comments`, drops the comments — so does the model)
+        Rule::comment | Rule::eol_comment => Ok(()),
+        Rule::conditional | Rule::lambda | Rule::lambda_expression | Rule::argument_list | Rule::required_arg | Rule::optional_arg | Rule::rest_arg
+        | Rule::call_list | Rule::access | Rule::dot_access | Rule::spread_expression | Rule::list | Rule::list_item => {
+            for c in p.into_inner() {
+                in_fragment(c)?;
+            }
+            Ok(())
+        }
+        Rule::spread_operator => Ok(()),
         Rule::assignment => Err("assignment"),
-        Rule::lambda => Err("lambda"),
         _ => Err("other-rule"),
     }
 }
@@ -621,23 +689,57 @@ const LAY_ANY: &[&str] = &["", "", " ", " ", "  ", "\t", "\n", "\r\n", " \n  ", 
 const LAY_SOME: &[&str] = &[" ", " ", "  ", "\t", "\n", "\r\n", " \n  ", "\n\t", " // c\n", "//c\n "];
 const LAY_WS: &[&str] = &[" ", " ", "  ", "\t", " \t "];
 
+const PEG_FIELDS: &[&str] = &["k", "x", "_t", "a1", "iffy", "nota", "e", "sqrt", "trueish", "do_it", "F", "n0_"];
+/// layout the atomic `access` admits inside its brackets: `NEWLINE*` (line breaks and their
+/// comments), no blanks
+const LAY_NL: &[&str] = &["", "", "", "\n", "\r\n", "\n\n", "// c\n", "\n//c /\r\n"];
+/// the line break the grammar wants behind a trailing comma (`("," ~ NEWLINE)?`)
+const LAY_BREAK: &[&str] = &["\n", "\r\n", "// c\n", " \n", "\t// c\r\n"];
+const LAY_WS0: &[&str] = &["", "", "", " ", "  ", "\t"];
+/// layout the non-atomic `list` admits behind `[`, behind a comma and in front of `]`: blanks,
+/// PLAIN line breaks, comments that are followed by a line break
+const LAY_LIST: &[&str] = &["", "", " ", " ", "  ", "\t", "\n", "\r\n", "\n  ", " \n\t", "\n\n", " // c\n", "\n// c /\r\n ", "// c\n// d\n"];
+
 fn gen_ft(rng: &mut Rng, depth: usize) -> T {
     if depth == 0 || rng.chance(1, 4) {
         return T::Leaf(PEG_ATOMS[rng.below(PEG_ATOMS.len())]);
     }
-    match rng.below(10) {
+    match rng.below(16) {
         0 => T::Neg(Box::new(gen_ft(rng, depth - 1))),
         1 => T::Not(Box::new(gen_ft(rng, depth - 1))),
         2 => T::Fact(Box::new(gen_ft(rng, depth - 1))),
+        3 | 4 => {
+            let f = gen_ft(rng, depth - 1);
+            let n = [0, 1, 1, 2, 2, 3][rng.below(6)];
+            let args = (0..n).map(|_| (rng.chance(1, 5), gen_ft(rng, depth - 1))).collect();
+            T::CallN(Box::new(f), args)
+        }
+        5 => T::IdxE(Box::new(gen_ft(rng, depth - 1)), Box::new(gen_ft(rng, depth - 1))),
+        7 | 8 => {
+            let n = [0, 1, 1, 2, 2, 3][rng.below(6)];
+            T::ListN((0..n).map(|_| (rng.chance(1, 5), gen_ft(rng, depth - 1))).collect())
+        }
+        9 | 10 => {
+            const NAMES: &[&str] = &["x", "y", "k", "_a", "n0", "sqrt", "iffy", "nota", "e"];
+            let n = [0, 1, 1, 1, 2, 3][rng.below(6)];
+            let args = (0..n).map(|_| ([0u8, 0, 0, 1, 2][rng.below(5)], NAMES[rng.below(NAMES.len())])).collect();
+            T::Lam(args, Box::new(gen_ft(rng, depth - 1)))
+        }
+        11 => T::Cond(Box::new(gen_ft(rng, depth - 1)), Box::new(gen_ft(rng, depth - 1)), Box::new(gen_ft(rng, depth - 1))),
+        6 => T::DotN(Box::new(gen_ft(rng, depth - 1)), PEG_FIELDS[rng.below(PEG_FIELDS.len())]),
         _ => T::Bin(BINOPS[rng.below(BINOPS.len())], Box::new(gen_ft(rng, depth - 1)), Box::new(gen_ft(rng, depth - 1))),
     }
 }
 
 /// `minimal` with a random ADMISSIBLE layout string at every position where the grammar admits
-/// one (around binary operators, inside parentheses) and, with probability `extra`/8, an extra
-/// pair of parentheses around a sub-expression.  Admissible: anything (also nothing) around a
-/// symbol operator, but something in front of an operator starting with `!`; at least one
-/// layout atom in front of a word operator and blanks (no line break) behind it.
+/// one (around binary operators, inside parentheses, inside a call's parentheses, inside an
+/// index's brackets) and, with probability `extra`/8, an extra pair of parentheses around a
+/// sub-expression.  Admissible: anything (also nothing) around a symbol operator, but something
+/// in front of an operator starting with `!`; at least one layout atom in front of a word
+/// operator and blanks (no line break) behind it; in a call anything behind `(`, behind a comma
+/// and in front of `)`, blanks only in front of a comma, optionally a trailing comma followed
+/// (after blanks) by a line break; inside `[ ]` line breaks (with comments) only; nothing
+/// between an operand and its postfix operator.
 fn laid(t: &T, rng: &mut Rng, extra: u64) -> String {
     fn wrapl(c: &T, need: bool, rng: &mut Rng, extra: u64) -> String {
         let inner = laid(c, rng, extra);
@@ -651,7 +753,7 @@ fn laid(t: &T, rng: &mut Rng, extra: u64) -> String {
         T::Leaf(s) => s.to_string(),
         T::Bin(op, l, r) => {
             let (p, right) = doc_level(op);
-            let lneed = matches!(&**l, T::Bin(lo, _, _) if { let (lp, _) = doc_level(lo); lp < p || (lp == p && right) });
+            let lneed = matches!(&**l, T::Bin(lo, _, _) if { let (lp, _) = doc_level(lo); lp < p || (lp == p && right) }) || ends_open(l);
             let rneed = matches!(&**r, T::Bin(ro, _, _) if { let (rp, _) = doc_level(ro); rp < p || (rp == p && !right) });
             let word = op.chars().next().unwrap().is_ascii_alphabetic();
             let (a, b) = if word {
@@ -670,6 +772,103 @@ fn laid(t: &T, rng: &mut Rng, extra: u64) -> String {
         T::Neg(x) => format!("-{}", wrapl(x, strength(x) < 7, rng, extra)),
         T::Not(x) => format!("!{}", wrapl(x, strength(x) < 7, rng, extra)),
         T::Fact(x) => format!("{}!", wrapl(x, strength(x) < 8, rng, extra)),
+        T::CallN(x, args) => {
+            let mut out = wrapl(x, strength(x) < 8, rng, extra);
+            out.push('(');
+            out.push_str(LAY_ANY[rng.below(LAY_ANY.len())]);
+            for (k, (sp, a)) in args.iter().enumerate() {
+                if k > 0 {
+                    out.push_str(LAY_WS0[rng.below(LAY_WS0.len())]);
+                    out.push(',');
+                    out.push_str(LAY_ANY[rng.below(LAY_ANY.len())]);
+                }
+                if *sp {
+                    out.push_str("...");
+                }
+                out.push_str(&laid(a, rng, extra));
+            }
+            if !args.is_empty() && rng.chance(1, 3) {
+                // trailing comma: blanks, `,`, blanks, a line break
+                out.push_str(LAY_WS0[rng.below(LAY_WS0.len())]);
+                out.push(',');
+                out.push_str(LAY_BREAK[rng.below(LAY_BREAK.len())]);
+            }
+            out.push_str(LAY_ANY[rng.below(LAY_ANY.len())]);
+            out.push(')');
+            out
+        }
+        T::IdxE(x, i) => format!(
+            "{}[{}{}{}]",
+            wrapl(x, strength(x) < 8, rng, extra),
+            LAY_NL[rng.below(LAY_NL.len())],
+            laid(i, rng, extra),
+            LAY_NL[rng.below(LAY_NL.len())]
+        ),
+        T::DotN(x, n) => format!("{}.{}", wrapl(x, strength(x) < 8, rng, extra), n),
+        T::ListN(items) => {
+            let mut out = String::from("[");
+            out.push_str(LAY_LIST[rng.below(LAY_LIST.len())]);
+            for (k, (sp, a)) in items.iter().enumerate() {
+                if k > 0 {
+                    out.push_str(LAY_WS0[rng.below(LAY_WS0.len())]);
+                    out.push(',');
+                    out.push_str(LAY_LIST[rng.below(LAY_LIST.len())]);
+                }
+                if *sp {
+                    out.push_str("...");
+                }
+                out.push_str(&laid(a, rng, extra));
+            }
+            if !items.is_empty() && rng.chance(1, 3) {
+                // trailing comma: blanks, `,` (no line break needed, unlike a call)
+                out.push_str(LAY_WS0[rng.below(LAY_WS0.len())]);
+                out.push(',');
+            }
+            out.push_str(LAY_LIST[rng.below(LAY_LIST.len())]);
+            out.push(']');
+            out
+        }
+        T::Cond(c, t, e) => format!(
+            "if{}{}{}then{}{}{}else{}{}",
+            LAY_WS[rng.below(LAY_WS.len())],
+            laid(c, rng, extra),
+            LAY_SOME[rng.below(LAY_SOME.len())],
+            LAY_SOME[rng.below(LAY_SOME.len())],
+            laid(t, rng, extra),
+            LAY_SOME[rng.below(LAY_SOME.len())],
+            LAY_SOME[rng.below(LAY_SOME.len())],
+            laid(e, rng, extra)
+        ),
+        T::Lam(args, b) => {
+            let mut out = String::new();
+            if args.len() == 1 && args[0].0 != 2 && rng.chance(1, 2) {
+                // a single required / optional parameter without parentheses
+                out.push_str(&lam_arg(&args[0]));
+            } else {
+                out.push('(');
+                out.push_str(LAY_ANY[rng.below(LAY_ANY.len())]);
+                for (k, a) in args.iter().enumerate() {
+                    if k > 0 {
+                        out.push_str(LAY_WS0[rng.below(LAY_WS0.len())]);
+                        out.push(',');
+                        out.push_str(LAY_ANY[rng.below(LAY_ANY.len())]);
+                    }
+                    out.push_str(&lam_arg(a));
+                }
+                if !args.is_empty() && rng.chance(1, 4) {
+                    out.push_str(LAY_WS0[rng.below(LAY_WS0.len())]);
+                    out.push(',');
+                    out.push_str(LAY_BREAK[rng.below(LAY_BREAK.len())]);
+                }
+                out.push_str(LAY_ANY[rng.below(LAY_ANY.len())]);
+                out.push(')');
+            }
+            out.push_str(LAY_WS0[rng.below(LAY_WS0.len())]);
+            out.push_str("=>");
+            out.push_str(LAY_ANY[rng.below(LAY_ANY.len())]);
+            out.push_str(&wrapl(b, body_needs_parens(b), rng, extra));
+            out
+        }
         _ => unreachable!(),
     };
     s
@@ -723,6 +922,64 @@ fn check_expr_peg(ctx: &Ctx, model: &mut Model, rep: &mut Report, rng: &mut Rng)
         "output", "output a", "then", "a then b", "#a", "a + #b", "\"s\" + a", "[a] + b", "{a} + b", "a + [b]", "sqrt", "sqrt(a)",
         "sqrt + max", "e ^ e", "inf", "infinity + 1", "a +", "+ a", "a + * b", "a b", "a, b", "a;b", "", " ", "\n", "é", "a + é",
         "a\u{a0}+ b", "a +\u{2028}b", "x\t+\ty", "a via\nb", "a\n\n\nvia b", "a where b where c", "a and b or c", "-a and !b",
+        // postfix forms: call_list (non-atomic), access / dot_access (atomic)
+        "f()", "f( )", "f(\n)", "f(// c\n)", "f(a)", "f( a )", "f(a,b)", "f(a, b)", "f(a ,b)", "f(a\n,b)", "f(a,\nb)", "f(a , \n b)",
+        "f(a,)", "f(a, )", "f(a,\n)", "f(a, \n)", "f(a,// c\n)", "f(a , // c\n )", "f(a,\n\n)", "f(a,b,)", "f(a,b,\n)", "f(,)", "f(,\n)",
+        "f(,\n,\n)", "f(a,,b)", "f(a,\n,b)", "f(\n  a,\n  b,\n)", "f(\r\n\ta,\r\n\tb,\r\n)", "f(a b)", "f(a;b)", "f((a))", "f((a),(b))", "f(a)(b)",
+        "f(a)!", "f!(a)", "f (a)", "f\n(a)", "f(a) (b)", "(f)(a)", "-f(a)", "(-f)(a)", "!f(a)!", "not f(a)", "f(not a)", "f(a and b)",
+        "f(a andb)", "f(...a)", "f(... a)", "f(...a, ...b)", "f(a, ...b)", "f(....a)", "f(..a)", "f(...)", "f(...-a)", "f(...(a))",
+        "f(... )", "...a", "f(a...)", "f(a ...b)", "f(-a, !b, c!)", "f(a + b, c * d)", "f(a,\n// c\n b)", "f(a // c\n, b)", "f(a // c\n)",
+        "f(a, // c\n b // d\n)", "f(a /\n b)", "f(g(h(a)))", "f(g(a), h(b, c))", "sqrt(4)", "max(1, 2)", "true(a)", "1(a)", "(a)(b)",
+        "a[0]", "a[b]", "a[ b]", "a[b ]", "a[\nb]", "a[b\n]", "a[\n\nb\n\n]", "a[\r\nb\r\n]", "a[// c\nb]", "a[b// c\n]", "a[b // c\n]",
+        "a[\n b]", "a[b\n ]", "a[\tb]", "a[]", "a[b,c]", "a[b][c]", "a[b[c]]", "a[b]!", "a![b]", "a [b]", "a\n[b]", "a[b].c", "a.b[c]",
+        "a[b + c]", "a[b\n+ c]", "a[b +\nc]", "a[-b]", "a[(b)]", "a[( b )]", "a[b and c]", "a[...b]", "(a)[b]", "-a[b]", "(-a)[b]",
+        "a.b", "a.b.c", "a. b", "a .b", "a.\nb", "a\n.b", "a.b!", "a!.b", "a.if", "a.iffy", "a.not", "a.nota", "a.true", "a.null1",
+        "a.sqrt", "a.e", "a._", "a.1", "a.b1", "a.b_c", "a..b", "a...b", "a.(b)", "(a).b", "-a.b", "(-a).b", "a.b(c)", "a.b(c)[d].e!",
+        "1.x", "1.e5", "1.e", "1.5.x", "a.==b", "a.== b", "a .== b", "a.<b", "a.b<c", "a.b.==c", "a.b .== c", "f(a).b", "f(a)[b]", "f(a).b(c)",
+        "a + f(b)", "f(a) + b", "a+f(b)*c[d]", "f(a)and b", "f(a) and b", "a and f(b)", "a[b]and c", "a.b and c", "a.band c",
+        // list literals (non-atomic; comments become pairs that the plain conversion drops)
+        "[]", "[ ]", "[\n]", "[\t\r\n ]", "[a]", "[ a ]", "[a,b]", "[a, b]", "[a ,b]", "[a\n,b]", "[a,\nb]", "[a , \n b]", "[a,]", "[a, ]",
+        "[a,\n]", "[a ,]", "[a\n,]", "[a,,]", "[,]", "[ , ]", "[,a]", "[a b]", "[a;b]", "[\n  a,\n  b,\n]", "[\r\n\ta,\r\n\tb\r\n]", "[[a]]", "[[], []]",
+        "[[a], [b, c]]", "[a, [b, [c]]]", "[(a)]", "[(a), (b)]", "[-a, !b, c!]", "[a + b, c * d]", "[a and b]", "[a andb]", "[not a]",
+        "[...a]", "[... a]", "[...a, ...b]", "[a, ...b]", "[...[a]]", "[...-a]", "[....a]", "[..a]", "[...]", "[a...]",
+        "[// c\n]", "[// c]", "[// c\n a]", "[a // c\n]", "[a // c]", "[a, // c\n b]", "[a // c\n, b]", "[a, b // c\n]", "[a,// c\n]",
+        "[a // c\n // d\n]", "[// c\n// d\n a]", "[a /\n b]", "[a // c\n\n, b]", "[a, // c\r\n b // d\r\n]", "[a //\n]", "[a /// c\n]",
+        "[a][0]", "[a, b][1]", "[a].b", "[a](b)", "[a]!", "[a] [0]", "[a]\n[0]", "-[a]", "![a]", "not [a]", "not[a]", "a + [b]", "a+[b]",
+        "a [b]", "[a] + [b]", "[a]+[b]", "[a] and [b]", "[a]and [b]", "a and[b]", "[a] == [b]", "f([a])", "f([a], [b])", "f([a,\n b])",
+        "f(...[a])", "[f(a)]", "[f(a), g(b)]", "[a[0]]", "[a.b]", "[a[b], c.d, e(f)]", "a[[b]]", "a[[b][0]]", "[", "]", "[a", "a]", "[a)", "(a]",
+        "[a, b", "[a,\n", "[1, 2, 3]", "[1,2,3,]", "[true, null, sqrt]", "[1.5]", "[\"s\"]", "[{a}]", "[if a then b else c]",
+        // lambdas: `lambda` comes first among the alternatives of `term`; `argument_list` is non-atomic
+        "x => x", "x=>x", "x =>x", "x=> x", "x  =>  x", "x\t=>\tx", "x =>\nx", "x => // c\n x", "x\n=> x", "x // c\n=> x", "(x) => x",
+        "(x)=>x", "( x ) => x", "(\nx\n) => x", "(x,) => x", "(x, ) => x", "(x,\n) => x", "(x , \n ) => x", "(x\n,y) => x", "(x,\ny) => x",
+        "(x, y) => x", "(x,y)=>x+y", "() => 1", "( ) => 1", "(\n) => 1", "(,) => 1", "(,\n) => 1", "(x y) => 1", "(x;y) => 1", "((x)) => 1",
+        "x? => 1", "x ? => 1", "x?=>1", "(x?) => 1", "(x ?) => 1", "(x?, y?) => 1", "(x, y?) => 1", "(x?, y) => 1", "x?? => 1", "x ?? y",
+        "x ?? y => 1", "...r => 1", "... r => 1", "(...r) => 1", "(... r) => 1", "(x, ...r) => 1", "(...r, x) => 1", "(....r) => 1", "(..r) => 1",
+        "true => 1", "null => 1", "if => 1", "not => 1", "1 => 1", "sqrt => 1", "(sqrt) => sqrt", "(true) => 1", "x.y => 1", "x y => 1",
+        "x => ", "x =>", "=> x", "x = > x", "x > = x", "x >= x", "x == > x", "x => => x", "x => y => x", "x => y => x + y", "(x) => (y) => (x + y)",
+        "x => x via f", "x => (x via f)", "x => x into f", "x => x where y", "x => x and y", "x => x or y", "x => x && y", "x => a and b via c",
+        "x => a via b and c", "x => (a via b and c)", "x => a + b via c", "x => a and (b via c)", "(x => x) via f", "f via x => x",
+        "f via (x => x)", "a via x => x via g", "a into (x) => x + 1", "x => x, 1", "x => -x", "x => !x", "x => not x", "x => x!", "x => x(1)",
+        "(x => x)(1)", "x => x[0]", "x => x.y", "x => [x]", "x => [x, y => y]", "x => (x)", "x => ((x))", "(x => x)", "((x) => x)", "-x => x",
+        "-(x => x)", "!x => x", "a + x => x", "a + x => x + b", "(a + x => x) + b", "a and x => x and b", "x => x\n+ y", "x => x +\ny",
+        "f(x => x)", "f(x => x, y)", "f(x => x,\n)", "f((x) => x, (y) => y)", "f(x, y => x)", "f(...x => x)", "f(...(x => x))", "[x => x]",
+        "[x => x, 1]", "[x => x,]", "a[x => x]", "(x) + y", "(x) * (y)", "(x)", "(x, y)", "(x,\n)", "( x )", "(x) (y)", "(x).y", "(x)[y]",
+        "(x)!", "(x) == y", "(x) = > y", "(x)== >y", "(a and b) => 1", "(a.b) => 1", "(a + b) => 1", "((a)) => 1", "(a)(b) => 1",
+        // conditionals: atomic, explicit layout
+        "if a then b else c", "if  a  then  b  else  c", "if\ta\tthen\tb\telse\tc", "if a\nthen b\nelse c", "if a then\n  b\nelse\n  c",
+        "if\na then b else c", "if // c\n a then b else c", "if a // c\n then b else c", "if a then // c\n b else c", "if a then b // c\n else c",
+        "if a then b else // c\n c", "if a then b else c // c", "ifa then b else c", "if a thenb else c", "if athen b else c", "if a then b elsec",
+        "if a then belse c", "if(a) then b else c", "if (a) then b else c", "if (a)then b else c", "if a then(b) else c", "if a then (b)else c",
+        "if a then b else(c)", "if a then b else (c)", "if a then b", "if a then b else", "if a then else c", "if then b else c", "if a b else c",
+        "if a then b else c else d", "if a then b then c else d", "if a then if b then c else d else e", "if a then b else if c then d else e",
+        "if if a then b else c then d else e", "if a then if b then c else d", "(if a then b else c)", "(if a then b else c) + d",
+        "if a then b else c + d", "a + if b then c else d", "a + if b then c else d + e", "(a + if b then c else d) + e", "-if a then b else c",
+        "if a then b else c!", "(if a then b else c)!", "(if a then b else c)(d)", "if a then b else c(d)", "f(if a then b else c)",
+        "f(if a then b else c, d)", "[if a then b else c]", "[if a then b else c, d]", "a[if b then c else d]", "if a and b then c else d",
+        "if a or b then c or d else e and f", "if not a then b else c", "if a via b then c else d", "if a then b via c else d", "if a then b else c via d",
+        "if a == b then c else d", "if a then x => y else z", "if a then b else x => y", "if x => y then a else b", "x => if a then b else c",
+        "x => if a then b else c via f", "x => (if a then b else c) via f", "if a then b else c and d", "iffy", "if_", "if", "if ", "if a",
+        "ifthen", "if then then then else else", "then", "else", "a then b", "a else b", "if a then b else\n\nc", "if a then b\n\nelse c",
+        "if true then null else 0", "if a! then b! else c!", "if -a then -b else -c", "if a.b then c[0] else d(1)",
     ];
     for t in PROBES {
         peg_compare(model, rep, t, "probe");
@@ -737,11 +994,53 @@ fn check_expr_peg(ctx: &Ctx, model: &mut Model, rep: &mut Report, rng: &mut Rng)
             }
         }
     }
-    // random operator trees: printer output, admissible re-layout, redundant parentheses
+    // every layout string at every position of the postfix forms
+    const PL: &[&str] = &["", " ", "\t", "\n", "\r\n", " // c\n", "\n ", " \n", "// c\n"];
+    for a in PL {
+        for b in PL {
+            for t in [
+                format!("f({}x{})", a, b),
+                format!("f(x{},{}y)", a, b),
+                format!("f(x,{}y{})", a, b),
+                format!("f(x{},{})", a, b),
+                format!("f(x,{}...y{})", a, b),
+                format!("f({}{})", a, b),
+                format!("f[{}x{}]", a, b),
+                format!("f{}.{}g", a, b),
+                format!("f{}(x){}", a, b),
+                format!("f{}[x]{}!", a, b),
+                format!("f(x){}+{}y[z]", a, b),
+                format!("[{}x{}]", a, b),
+                format!("[x{},{}y]", a, b),
+                format!("[x,{}y{}]", a, b),
+                format!("[x{},{}]", a, b),
+                format!("[x,{}...y{}]", a, b),
+                format!("[{}{}]", a, b),
+                format!("z{}[{}x]", a, b),
+                format!("x{}=>{}y", a, b),
+                format!("(x){}=>{}y", a, b),
+                format!("({}x{}) => y", a, b),
+                format!("(x{},{}y) => x", a, b),
+                format!("(x,{}y{}) => x", a, b),
+                format!("(x{},{}) => x", a, b),
+                format!("({}{}) => x", a, b),
+                format!("x{}?{}=> y", a, b),
+                format!("(...{}r{}) => y", a, b),
+                format!("if{}x{}then y else z", a, b),
+                format!("if x then{}y{}else z", a, b),
+                format!("if x then y else{}z{}", a, b),
+                format!("if x{}then{}y else z", a, b),
+                format!("if x then y{}else{}z", a, b),
+            ] {
+                peg_compare(model, rep, &t, "postfix-layout");
+            }
+        }
+    }
+    // random trees: printer output, admissible re-layout, redundant parentheses
     let n = ctx.budget(500, 6000);
     const ALPHABET: &[char] = &[
         ' ', ' ', '\t', '\n', 'a', 'n', 'o', 't', 'd', 'r', 'z', '0', '1', '9', '_', '(', ')', '+', '-', '*', '/', '%', '^', '.',
-        '=', '!', '<', '>', '&', '|', '?',
+        '=', '!', '<', '>', '&', '|', '?', ',', ',', '[', ']', '.', '(', ')',
     ];
     for _ in 0..n {
         let d = 1 + rng.below(4);
